@@ -21,6 +21,20 @@ func payableMenu(w *world.World, o menuOpts) []world.Action {
 	extras := [][][]byte{nil, {[]byte("f")}, {[]byte("f"), {7}}}
 	dsts := [][]byte{uni.B0, uni.S0, uni.C1, uni.S1c}
 	odd := [][]byte{uni.M, uni.B0[:31], append(append([]byte{}, uni.B0...), 0)}
+	// an NFT of collection R created by the contract s0 itself comes back to it from c1
+	if held(w, uni.C1, tR+spec.NonceSuffix(1)) > 0 {
+		for _, to := range [][]byte{uni.S0, uni.S1c} {
+			for _, ct := range allCallTypes {
+				for _, ex := range extras {
+					a := uni.NFTTransfer(uni.C1, to, uni.R, 1, 1, ex...)
+					a.CallType = ct
+					m := uni.Multi(uni.C1, to, []uni.Ent{{Tok: uni.R, Nonce: 1, Q: 1}}, ex...)
+					m.CallType = ct
+					acts = append(acts, a, m)
+				}
+			}
+		}
+	}
 	for _, from := range [][]byte{uni.A0, uni.S0} {
 		hasF := held(w, from, tF) > 0
 		hasS := held(w, from, tS1) > 0
@@ -101,6 +115,10 @@ func c09Profiles(tier Tier) []*explore.Profile {
 				// the contract sender gets its tokens through exempt transfers
 				b.Must(uni.ESDTTransfer(uni.A0, uni.S0, uni.F, 1, []byte("f")))
 				b.Must(uni.NFTTransfer(uni.A0, uni.S0, uni.S, 1, 1, []byte("f")))
+				// the contract s0 creates an NFT of its own collection R and sends pieces to c1
+				b.Must(uni.SetRole(uni.S0, uni.R, uni.NFTRoles...))
+				b.Must(uni.Create(uni.S0, uni.R, 3))
+				b.Must(uni.NFTTransfer(uni.S0, uni.C1, uni.R, 1, 2)).DeliverAll()
 				w := b.W.Clone()
 				for _, d := range [][]byte{uni.B0, uni.S0, uni.C1, uni.S1c} {
 					w.Payable[string(d)] = ans
@@ -218,7 +236,7 @@ func c10Profiles(tier Tier) []*explore.Profile {
 			return acts
 		},
 	}
-	return []*explore.Profile{t, shapes, other, wideTransfersProfile(tier, mk()), highNonceProfile("high-nonce", tier, mk(), 2)}
+	return []*explore.Profile{t, shapes, other, wideTransfersProfile(tier, mk()), highNonceProfile("high-nonce", tier, mk(), 2), highNonceProfileAt("high-nonce-256", tier, mk(), 2, 256)}
 }
 
 func init() { LedgerProfiles["C10"] = c10Profiles }
@@ -230,7 +248,7 @@ func C10(tier Tier) int {
 		"attached-call-checked:ESDTNFTTransfer:sender", "attached-call-checked:ESDTNFTTransfer:dest", "attached-call-checked:MultiESDTNFTTransfer:sender",
 		"attached-call-checked:MultiESDTNFTTransfer:dest", "parser-agrees:ESDTTransfer:sender", "parser-agrees:ESDTTransfer:dest",
 		"parser-agrees:ESDTNFTTransfer:sender", "parser-agrees:ESDTNFTTransfer:dest", "parser-agrees:MultiESDTNFTTransfer:sender", "parser-agrees:MultiESDTNFTTransfer:dest",
-		"dest:SetUserName:ok", "dest:ESDTNFTCreateRoleTransfer:ok", "high-nonce-reached"}
+		"dest:SetUserName:ok", "dest:ESDTNFTCreateRoleTransfer:ok", "high-nonce-reached", "high-nonce-256-reached"}
 	return RunLedger("C10", tier, c10Profiles(tier), req)
 }
 
